@@ -34,9 +34,26 @@ def run_session(kind, tc, w, hist, rng):
     else:
         pred, _ = ip.build_bottomup(dict(scale=1.0, max_stride=8, stride=2, pstride=2, refine="integral", batch=2), frames, 3, EDGES)
     pred.tracker = make_tracker(tc, w, thr=0.0)
-    out = dict(frames=[], raised="", skipped_with_animals=0)
+    out = dict(frames=[], raised="", skipped_with_animals=0, stream=None)
+    from harness.sched import Sched
+    slog = Sched(forced=False, seed=rng.randrange(1 << 30))
+    cap = rng.choice([1, 2, 4])
     try:
-        lab = ip.run_predictor(pred, "LabelsReader", labels, 2, make_labels=True)
+        lab = ip.run_predictor(pred, "LabelsReader", labels, 2, make_labels=True, stream_log=slog, queue_maxsize=cap)
+        with slog.seqlock:
+            evs = sorted(slog.events)
+        # the same run as a FrameStream trace: positions are frame index + 1 (one video, all frames labelled, in order)
+        conv = []
+        for _, k, a in evs:
+            if k in ("read", "put"):
+                conv.append([k, int(a) + 1])
+            elif k == "get":
+                conv.append([k, -1 if a == -1 else int(a) + 1])
+            elif k == "infer":
+                conv.append([k, [int(x) + 1 for x in a]])
+            else:
+                conv.append([k, 0])
+        out["stream"] = dict(cfg=dict(n=len(frames), cap=cap, b=2, fail=0), ev=conv)
     except Exception as e:
         import traceback
         out["raised"] = "%s: %s | %s" % (type(e).__name__, str(e)[:200], traceback.format_exc()[-300:].replace("\n", " / "))
